@@ -202,7 +202,10 @@ type Property struct {
 	// panic that escapes c.Guard, which counts as a harness bug).
 	Run func(c *Case)
 	// Setup is called once per process before the first case.
-	Setup func(tier string)
+	Setup func(tier string, seed uint64)
+	// Plan, if set, returns the number of cases of a tier (for properties
+	// whose case space is an enumeration computed from the corpus).
+	Plan func(tier string, seed uint64) uint64
 }
 
 type outLine struct {
@@ -383,6 +386,7 @@ func Main(p *Property) {
 	hashes := flag.String("hashes", "", "")
 	replay := flag.String("replay", "", "")
 	noShrink := flag.Bool("noshrink", false, "")
+	plan := flag.Bool("plan", false, "emit the number of cases of the tier and exit")
 	digest := flag.Bool("digest", false, "emit a per-case digest line (determinism self-test)")
 	flag.Parse()
 	if *out == "" {
@@ -406,7 +410,16 @@ func Main(p *Property) {
 		w.Flush()
 	}
 	if p.Setup != nil {
-		p.Setup(*tier)
+		p.Setup(*tier, *seed)
+	}
+	if *plan {
+		n := uint64(0)
+		if p.Plan != nil {
+			n = p.Plan(*tier, *seed)
+		}
+		emit(&outLine{K: "plan", Cases: int64(n)})
+		fd.Close()
+		return
 	}
 
 	if *replay != "" {
@@ -498,4 +511,34 @@ func Main(p *Property) {
 	}
 	emit(total)
 	fd.Close()
+}
+
+// BlameSites finds the map-iteration sites responsible for an order
+// dependence: digest() is evaluated with order assignment `base` everywhere
+// except one site at a time, which gets assignment `other`; the sites whose
+// switch changes the digest are returned (sorted).
+func BlameSites(base, other uint64, digest func() uint64) []string {
+	simhook.SiteOverride = nil
+	simhook.OrderID = other
+	simhook.Record = true
+	simhook.Touched = map[string]int{}
+	digest()
+	simhook.Record = false
+	var sites []string
+	for s := range simhook.Touched {
+		sites = append(sites, s)
+	}
+	sort.Strings(sites)
+	simhook.OrderID = base
+	ref := digest()
+	var blamed []string
+	for _, s := range sites {
+		simhook.SiteOverride = map[string]uint64{s: other}
+		if digest() != ref {
+			blamed = append(blamed, s)
+		}
+	}
+	simhook.SiteOverride = nil
+	simhook.OrderID = 0
+	return blamed
 }
